@@ -124,18 +124,20 @@ def ob_symker(et, physics, face=0):
     return Verdict(DISCHARGED, backend="exact field arithmetic", sub=n)
 
 
-def ob_rank(et, physics, face=0):
+def ob_rank(et, physics, face=0, canary=False):
     gid, nPe, dim, order = common.elem_infos(et)
     c, coords, connect, g = _setup(et, face)
     Ke, ncomp = _Ke(g, physics, dim)
     Nn = len(coords)
     K = fem.dense_assemble(Ke, connect, Nn * ncomp, ncomp)
     nm = 1 if physics == "thermal" else (3 if dim == 2 else 6)
-    r = fem.rank(K)
+    if canary:
+        nm -= 1
+    r = fem.rank_mod(K, c)      # lower bound (F_p image); the kernel obligation gives the matching upper bound
     if r != Nn * ncomp - nm:
         raise Refuted(f"{et} {physics}: assembled 2-element patch has rank {r}, expected {Nn*ncomp - nm} (ndof {Nn*ncomp}, physical modes {nm})",
                       cex=dict(elemType=et, rank=r, ndof=Nn * ncomp), signature=f"rank:{et}:{physics}", replay=_native_K(et, physics, face))
-    return Verdict(DISCHARGED, backend="exact Gaussian elimination", sub=1, detail=f"rank {r} of {Nn*ncomp}")
+    return Verdict(DISCHARGED, backend="rank of the image in F_p (sound lower bound) == upper bound from the exact kernel identity", sub=1, detail=f"rank {r} of {Nn*ncomp}")
 
 
 def _native_M(et, face=0):
@@ -193,7 +195,7 @@ def ob_mass(et, face=0):
                             if not fem._is0(Mv[e, i * dim + d1, j * dim + d2] - want):
                                 raise Refuted(f"{et}: vector mass block ({i},{d1}),({j},{d2}) wrong", signature=f"mass:{et}:block", replay=_native_M(et, face))
     M = fem.dense_assemble(Me, connect, len(coords), 1)
-    r = fem.rank(M)
+    r = fem.rank_mod(M, c)
     n += 1
     if r != len(coords):
         raise Refuted(f"{et}: consistent mass matrix of the 2-element patch has rank {r} < {len(coords)} nodes: not positive definite",
@@ -235,6 +237,7 @@ def build(tier, seed):
                       clause="K_e symmetric; rigid-body modes in the kernel (exact)", timeout=2400))
         obs.append(Ob(f"C02.K.rank.{et}.elastic", ob_rank, (et, "elastic"), "B", fk, bound=bound,
                       clause="rank of the assembled stiffness == ndof - #rigid modes", timeout=2400))
+    obs.append(Ob("canary.rank.TRI3.thermal", ob_rank, ("TRI3", "thermal", 0, True), "B", expect=REFUTED, timeout=300))
     functions = {q: extract.get(BP, q).describe() for q in ("GradUGradV", "UV", "LinearizedElasticity")}
     return dict(
         obs=obs, level="other", min_obligations=60,
